@@ -3,8 +3,17 @@ C03 case generator: scope trees → Python source, model analysis/run, spec anal
   * systematic part: every chain module ⊃ b1 ⊃ b2 (⊃ b3 in the thorough tier) of
     function/lambda/class/comprehension blocks × placement patterns of
     bind/use/global/nonlocal/del of one name around the nested block × parameter variants;
+  * sibling families (added in round 2, after seeded change C03-a was missed): every parent block
+    (module, function binding x before / after its children / by a parameter of each kind, class,
+    function or class nested in a function that binds x) × every ORDERED pair (and triple) of child
+    scopes, each child drawn independently from the full alphabet (def/class/lambda/comprehension ×
+    use/bind/global/nonlocal/del sequences of x × a nested grandchild scope);
   * seeded random trees (nesting ≤ 3, ≤ 2–4 items per block, names x, y, abs, several
-    children per block, all parameter kinds, duplicate parameters, `__class__`).
+    children per block, all parameter kinds, duplicate parameters, `__class__`); a second profile
+    ("dense") has one name and a scope-heavy mix so that blocks with 2–4 child scopes are the rule.
+
+Tag `cpsens` marks a case on which the model WITHOUT `temp_bound := bound.Copy()` (`newSymTableNoCopy`)
+differs from the model: the measured number of cases that see a callee write into a shared `bound` set.
 -/
 import GPy.C03.Spec
 namespace GPy.C03
@@ -132,7 +141,19 @@ def bodyOps : Body → List NOp
 
 def hasSub (s sub : String) : Bool := (s.splitOn sub).length > 1
 
-def mkCase (b : Body) : Case :=
+/-- number of child scopes directly in this body -/
+def kidCount : Body → Nat
+  | .nil => 0
+  | .op _ rest => kidCount rest
+  | .child _ _ _ _ rest => kidCount rest + 1
+
+/-- the largest number of child scopes of any block -/
+def maxKids : Body → Nat
+  | .nil => 0
+  | .op _ rest => maxKids rest
+  | .child k n ps body rest => max (max (maxKids body) (kidCount (.child k n ps body rest))) (maxKids rest)
+
+def mkCase (b : Body) (extraTags : List String := []) : Case :=
   let U := namesOf b
   let src := render b
   let m := newSymTable Order.id b
@@ -155,7 +176,12 @@ def mkCase (b : Body) : Case :=
     | .ok t => ((sdumpV U t).drop 1).toString ++ " # " ++ specRunResult U b t
   let ks := bodyKinds b
   let ops := bodyOps b
-  let tags :=
+  let cpsens := match m, newSymTableNoCopy Order.id b with
+    | .ok t, .ok t' => dumpR U t != dumpR U t'
+    | .ok _, .error _ => true
+    | .error _, .ok _ => true
+    | .error _, .error _ => false
+  let tags := extraTags ++ (if cpsens then ["cpsens"] else []) ++ (if maxKids b ≥ 2 then ["sibs"] else []) ++
     (if sV == "E:SyntaxError" then ["syn"] else []) ++
     (if hasSub sV "=C" then ["cell"] else []) ++
     (if hasSub sV "=F" then ["free"] else []) ++
@@ -192,7 +218,8 @@ def stmtPats : Array Pat := #[
   ⟨[], []⟩, ⟨[oBind], []⟩, ⟨[], [oBind]⟩, ⟨[oUse], []⟩, ⟨[], [oUse]⟩, ⟨[oBind], [oUse]⟩,
   ⟨[oBind, oUse], [oBind]⟩, ⟨[oGlob], []⟩, ⟨[oGlob, oBind], [oUse]⟩, ⟨[oNonl], []⟩,
   ⟨[oNonl, oBind], []⟩, ⟨[oNonl], [oUse]⟩, ⟨[oBind], [oDel]⟩, ⟨[oDel], []⟩,
-  ⟨[oBind], [oGlob]⟩, ⟨[oUse], [oNonl]⟩, ⟨[oBind, oDel], [oUse]⟩, ⟨[oGlob], [oDel]⟩, ⟨[oNonl], [oDel]⟩ ]
+  ⟨[oBind], [oGlob]⟩, ⟨[oUse], [oNonl]⟩, ⟨[oBind, oDel], [oUse]⟩, ⟨[oGlob], [oDel]⟩, ⟨[oNonl], [oDel]⟩,
+  ⟨[oBind], [oNonl]⟩, ⟨[oUse], [oGlob]⟩ ]
 
 def exprPats : Array Pat := #[ ⟨[], []⟩, ⟨[oUse], []⟩, ⟨[], [oUse]⟩ ]
 
@@ -247,6 +274,123 @@ def levelChoices (x : Name) (exprCtx : Bool) (spi : List Nat) (pvi : List Nat) :
 
 def isExprKind (k : Kind) : Bool := k == .lam || k == .comp
 
+/-! ### sibling families: a parent block with 2 or 3 child scopes in every order -/
+
+/-- a child scope as a function of the name, its index and what follows it in the parent -/
+abbrev KidF := Name → Nat → Body → Body
+
+def kid (k : Kind) (ps : Name → List Param) (pre : List (Name → Nat → NOp))
+    (inner : Option KidF := none) (post : List (Name → Nat → NOp) := []) : KidF :=
+  fun x idx rest =>
+    let (postB, _) := seqOps post x (100 * idx + 50) .nil
+    let mid := match inner with | some f => f x (idx * 10 + 1) postB | none => postB
+    let (body, _) := seqOps pre x (100 * idx + 10) mid
+    .child k ((if k == .cls then "C" else "f") ++ toString idx) (ps x) body rest
+
+def noPs : Name → List Param := fun _ => []
+def compT : Name → List Param := fun _ => [{ name := "t", val := 70 }]
+
+/-- the statement-level operation sequences a child scope may consist of (one name) -/
+def kidSeqs : Array (List (Name → Nat → NOp)) := #[
+  [], [oUse], [oBind], [oGlob], [oGlob, oBind], [oGlob, oUse], [oNonl], [oNonl, oBind], [oNonl, oUse],
+  [oDel], [oBind, oUse], [oUse, oBind], [oGlob, oBind, oUse], [oGlob, oDel], [oNonl, oDel], [oBind, oGlob],
+  [oBind, oNonl], [oUse, oGlob], [oUse, oNonl] ]
+
+/-- the child alphabet.  `level` 0: small (triples in quick), 1: quick pairs, 2: thorough -/
+def kidAlphabet (level : Nat) : List KidF := Id.run do
+  let seqIdx : List Nat := if level == 0 then [1, 4, 7] else if level == 1 then [0, 1, 2, 3, 4, 5, 6, 7, 8, 9, 10]
+                           else List.range kidSeqs.size
+  let mut out : List KidF := []
+  for i in seqIdx do
+    out := kid .func noPs kidSeqs[i]! :: out
+  if level == 1 then out := kid .func noPs kidSeqs[16]! :: out   -- assignment before `nonlocal`
+  for i in (if level == 0 then [1, 3] else seqIdx) do
+    out := kid .cls noPs kidSeqs[i]! :: out
+  -- expression scopes
+  out := kid .lam noPs [oUse] :: kid .comp compT [oUse] :: out
+  if level ≥ 1 then
+    out := kid .lam noPs [] :: kid .lam (fun x => [{ name := x, val := 90 }]) [oUse]
+      :: kid .lam (fun x => [{ name := "a", dflt := some x }]) [oUse]
+      :: kid .comp (fun x => [{ name := x, val := 71 }]) [oUse] :: kid .comp (fun x => [{ name := "t", dflt := some x }]) [oUse] :: out
+    -- parameters of every kind as binders, defaults that read the name
+    out := kid .func (fun x => [{ name := x, val := 90 }]) [oUse] :: kid .func (fun x => [{ name := "a", dflt := some x }]) [oUse]
+      :: kid .func (fun x => [{ name := x, kind := .star }]) [oUse] :: kid .func (fun x => [{ name := x, kind := .kwonly, val := 91 }]) [oUse]
+      :: kid .func (fun x => [{ name := x, kind := .dstar }]) [oUse] :: out
+  -- a scope nested in the child
+  out := kid .func noPs [] (some (kid .func noPs [oUse])) :: out
+  if level ≥ 1 then
+    out := kid .func noPs [] (some (kid .func noPs [oNonl, oBind])) :: kid .func noPs [] (some (kid .func noPs [oGlob, oBind]))
+      :: kid .func noPs [] (some (kid .lam noPs [oUse])) :: kid .func noPs [oGlob] (some (kid .func noPs [oUse]))
+      :: kid .func noPs [oBind] (some (kid .func noPs [oUse]))
+      -- class bodies whose methods / comprehensions use the name the class body binds
+      :: kid .cls noPs [] (some (kid .func noPs [oUse])) :: kid .cls noPs [oBind] (some (kid .func noPs [oUse])) [oUse]
+      :: kid .cls noPs [oBind] (some (kid .comp compT [oUse])) :: kid .cls noPs [oGlob, oBind] (some (kid .func noPs [oUse]))
+      :: kid .cls noPs [oBind] (some (kid .func noPs [oNonl, oBind])) :: kid .cls noPs [oUse] (some (kid .lam noPs [oUse])) :: out
+  if level ≥ 2 then
+    out := kid .func noPs [] (some (kid .cls noPs [oUse])) :: kid .func noPs [] (some (kid .comp compT [oUse]))
+      :: kid .func noPs [oNonl] (some (kid .func noPs [oUse])) :: kid .cls noPs [oNonl] (some (kid .func noPs [oUse]))
+      :: kid .cls noPs [oBind] (some (kid .cls noPs [oUse])) :: kid .cls noPs [] (some (kid .comp (fun x => [{ name := x, val := 72 }]) [oUse])) [oUse]
+      :: kid .func (fun x => [{ name := x, val := 92 }]) [] (some (kid .func noPs [oNonl, oBind])) [oUse] :: out
+  return out.reverse
+
+/-- a parent: the block whose children the siblings are, as a function of the children -/
+abbrev ParF := Name → (Body → Body) → Body
+
+def parModule (top : List (Name → Nat → NOp)) : ParF := fun x kids => (seqOps top x 10 (kids .nil)).1
+
+/-- `chain` = enclosing blocks of the parent, outermost first: (kind, params, ops before the nested block) -/
+def parNest (top : List (Name → Nat → NOp)) (chain : List (Kind × (Name → List Param) × List (Name → Nat → NOp)))
+    (post : List (Name → Nat → NOp)) : ParF := fun x kids =>
+  let rec go : List (Kind × (Name → List Param) × List (Name → Nat → NOp)) → Nat → Body
+    | [], _ => .nil
+    | [(k, ps, pre)], idx =>
+      let (postB, _) := seqOps post x (1000 * idx + 50) .nil
+      .child k ((if k == .cls then "K" else "g") ++ toString idx) (ps x) (seqOps pre x (1000 * idx + 10) (kids postB)).1 .nil
+    | (k, ps, pre) :: more, idx =>
+      .child k ((if k == .cls then "K" else "g") ++ toString idx) (ps x) (seqOps pre x (1000 * idx + 10) (go more (idx + 1))).1 .nil
+  (seqOps top x 10 (go chain 1)).1
+
+/-- the parents.  `level` 0: triples in quick, 1: quick pairs, 2: thorough -/
+def parents (level : Nat) : List ParF := Id.run do
+  let f (ps : Name → List Param) (pre : List (Name → Nat → NOp)) := ((Kind.func, ps, pre) : Kind × (Name → List Param) × List (Name → Nat → NOp))
+  let c (pre : List (Name → Nat → NOp)) := ((Kind.cls, noPs, pre) : Kind × (Name → List Param) × List (Name → Nat → NOp))
+  let mut out : List ParF := [
+    parNest [oBind] [f noPs [oBind]] [],                              -- x = 10; def g1(): x = ..; <kids>
+    parNest [] [f (fun x => [{ name := x, val := 95 }]) []] [],       -- def g1(x=95): <kids>
+    parNest [oBind] [c [oBind]] [oUse],                               -- class K1: x = ..; <kids>; p(x)
+    parNest [] [f noPs [oBind], f noPs []] [] ]                       -- def g1(): x = ..; def g2(): <kids>
+  if level ≥ 1 then
+    out := out ++ [
+      parModule [], parModule [oBind],
+      parNest [] [f noPs [oBind]] [],
+      parNest [oBind] [f noPs []] [oBind],                            -- bound after the children
+      parNest [oBind] [f (fun x => [{ name := x, kind := .star }]) []] [],
+      parNest [oBind] [f (fun x => [{ name := x, kind := .kwonly, val := 96 }]) []] [],
+      parNest [oBind] [f (fun x => [{ name := x, kind := .dstar }]) []] [],
+      parNest [oBind] [f noPs [oBind], c []] [],                      -- def g1(): x = ..; class K2: <kids>
+      parNest [oBind] [f noPs [oUse]] [] ]                            -- the parent only uses x
+  if level ≥ 2 then
+    out := out ++ [
+      parNest [oBind] [f (fun x => [{ name := "a", dflt := some x }]) [oBind]] [oUse],
+      parNest [oBind] [f noPs [oGlob, oBind]] [],
+      parNest [oBind] [f noPs [oBind], f noPs [oNonl]] [oBind],
+      parNest [] [f noPs [oBind], c [oBind]] [oUse],
+      parNest [oBind] [c [oBind], f noPs []] [],
+      parNest [] [f noPs [oBind]] [oDel],
+      parNest [] [c []] [] ]
+  return out
+
+/-- all ordered `n`-tuples of children for every parent -/
+def genFamilies (x : Name) (pars : List ParF) (alpha : List KidF) (n : Nat) (tag : String) : IO Unit := do
+  let rec tuples : Nat → List (List KidF)
+    | 0 => [[]]
+    | k + 1 => (tuples k).flatMap fun t => alpha.map fun a => a :: t
+  for par in pars do
+    for t in tuples n do
+      let kids : Body → Body := fun rest =>
+        (t.foldr (fun (a : KidF) (acc : Body × Nat) => (a x acc.2 acc.1, acc.2 - 1)) (rest, t.length + 1)).1
+      emit (mkCase (par x kids) [tag])
+
 /-! ### random trees -/
 
 structure GenSt where
@@ -281,14 +425,15 @@ def genParams (g : GenSt) (names : Array Name) : GenSt × List Param := Id.run d
     ps := ps ++ [{ name := nm, kind := kind, dflt := if kind == .pos && d < 3 then some dn else none, val := v }]
   return (g, ps)
 
-partial def genBody (g : GenSt) (names : Array Name) (depth : Nat) (exprCtx : Bool) (inClass : Bool) : GenSt × Body := Id.run do
-  let (g0, cnt) := g.nat 5
+partial def genBody (g : GenSt) (names : Array Name) (depth : Nat) (exprCtx : Bool) (inClass : Bool) (dense : Bool := false) : GenSt × Body := Id.run do
+  let (g0, cnt0) := g.nat 5
+  let cnt := if dense && cnt0 < 2 && depth < 2 then cnt0 + 2 else cnt0
   let mut g := g0
   let mut items : List (Body → Body) := []
   for _ in [0:cnt] do
     let (g1, c) := g.nat 100
     g := g1
-    if c < 34 && depth < 3 then
+    if c < (if dense then 52 else 34) && depth < 3 then
       -- a nested block
       let (g2, kk) := g.nat 100
       let kind : Kind := if exprCtx then (if kk < 50 then .lam else .comp)
@@ -301,13 +446,13 @@ partial def genBody (g : GenSt) (names : Array Name) (depth : Nat) (exprCtx : Bo
         let (g5, d) := g4.nat 10
         let (g6, dn) := pickName g5 names
         let (g7, v) := g6.fresh
-        let (g8, body) := genBody g7 names (depth + 1) true false
+        let (g8, body) := genBody g7 names (depth + 1) true false dense
         g := g8
         let p : Param := { name := t, dflt := if d < 4 then some dn else none, val := v }
         items := items ++ [fun rest => .child kind nm [p] body rest]
       else
         let (g4, ps) := if kind == .cls then (g, []) else genParams g names
-        let (g5, body) := genBody g4 names (depth + 1) (isExprKind kind) (kind == .cls)
+        let (g5, body) := genBody g4 names (depth + 1) (isExprKind kind) (kind == .cls) dense
         g := g5
         items := items ++ [fun rest => .child kind nm ps body rest]
     else
@@ -317,6 +462,9 @@ partial def genBody (g : GenSt) (names : Array Name) (depth : Nat) (exprCtx : Bo
       let (g4, v) := g3.fresh
       g := g4
       let op : NOp := if exprCtx then .use n
+        else if dense then
+          (if o < 38 then .use n else if o < 62 then .bind n v else if o < 66 then .del n
+           else if o < 84 then .glob n else .nonloc n)
         else if o < 34 then .use n else if o < 64 then .bind n v else if o < 74 then .del n
         else if o < 87 then .glob n else .nonloc n
       let op := match op with
@@ -352,8 +500,8 @@ def genMain (tier : String) (seed : Nat) : IO Unit := do
   emit (mkCase shared)
   -- systematic chains over one name
   let spiTop : List Nat := if thorough then List.range stmtPats.size else [0, 1, 5, 6, 8]
-  let spi1 : List Nat := if thorough then List.range stmtPats.size else [0, 1, 3, 5, 6, 7, 8, 9, 10, 12, 14, 16]
-  let spi2 : List Nat := if thorough then List.range stmtPats.size else [0, 1, 3, 4, 7, 8, 9, 10, 11, 13, 15]
+  let spi1 : List Nat := if thorough then List.range stmtPats.size else [0, 1, 3, 5, 6, 7, 8, 9, 10, 12, 14, 16, 19]
+  let spi2 : List Nat := if thorough then List.range stmtPats.size else [0, 1, 3, 4, 7, 8, 9, 10, 11, 13, 15, 19, 20]
   let pv1 : List Nat := if thorough then List.range 8 else [0, 1, 2, 4]
   let pv2 : List Nat := if thorough then [0, 1, 2, 3, 4, 5, 7] else [0, 1, 3]
   for ti in spiTop do
@@ -372,6 +520,9 @@ def genMain (tier : String) (seed : Nat) : IO Unit := do
       for l2 in levelChoices x (isExprKind l1.kind) spiM [0, 1] do
         for l3 in levelChoices x (isExprKind l2.kind) spi3 [0, 1] do
           emit (mkCase (buildChain x top [l1, l2, l3]))
+  -- sibling families: every parent × every ordered pair / triple of child scopes
+  genFamilies x (parents (if thorough then 2 else 1)) (kidAlphabet (if thorough then 2 else 1)) 2 "fam2"
+  genFamilies x (parents 0) (kidAlphabet (if thorough then 1 else 0)) 3 "fam3"
   -- random trees
   let n := if thorough then 150000 else 7000
   let mut g : GenSt := { r := ⟨(seed * 2654435761 + 12345).toUInt64⟩ }
@@ -380,5 +531,12 @@ def genMain (tier : String) (seed : Nat) : IO Unit := do
     let (g1, b) := genBody { g with ctr := 1 } names 0 false false
     g := g1
     emit (mkCase b)
+  -- dense profile: one or two names, scope-heavy, 2–4 children per block
+  let nd := if thorough then 100000 else 6000
+  for i in [0:nd] do
+    let names : Array Name := if i % 2 == 0 then #["x"] else #["x", "y"]
+    let (g1, b) := genBody { g with ctr := 1 } names 0 false false true
+    g := g1
+    emit (mkCase b ["dense"])
 
 end GPy.C03
